@@ -140,7 +140,8 @@ def gen_case(rng, tier):
             continue
         exp = apply_history_spec(mdl, hist)
         pts = [{p: C.q2s(F(rng.randint(-3, 3), rng.choice([1, 2]))) for p in sp} for _ in range(2)]
-        case = {"mdl": mdl, "history": hist, "points": pts, "pis": [{}, {}], "style": {}, "in_place": rng.random() < 0.5, "interp": {}, "expected_mdl": exp}
+        case = {"mdl": mdl, "history": hist, "points": pts, "pis": [{}, {}], "style": {}, "in_place": rng.random() < 0.5, "interp": {}, "expected_mdl": exp,
+                "other_holder": rng.random() < 0.4 and not mdl["circuit"].get("circuits")}
         o = N.oracle_case(dict(case, mdl=exp))
         if "error" in o or o["bits"] > 46:
             continue
@@ -183,6 +184,8 @@ def check(tier, seed, replay=None):
         if [m.get("dy") for m in mres] != orc["dy"]:
             raise C.HarnessError("Lean model and oracle disagree: " + json.dumps(case)[:400])
         dev = c01.compare(ec, im, orc)
+        if im.get("other_holder_changed"):
+            dev = list(dev) + [("override-reached-a-template-held-by-another-circuit", {"nodes": im["other_holder_changed"]})]
         if dev:
             bad.append((case, im, dev))
         else:
